@@ -206,12 +206,18 @@ pub fn gen_model(rng: &mut Rng, o: &GenOpts) -> Model {
         m.cons.wincons.push(WinCons {
             id: rng.uuid(),
             name: format!("winc{i}"),
-            glass: m.cons.glasses[rng.below(ngl)].id,
-            frame: m.cons.frames[rng.below(nfr)].id,
+            // odd models: a construction that declares its own figures but whose glazing or frame is not in the library
+            glass: if o.odd && rng.chance(1, 4) { rng.uuid() } else { m.cons.glasses[rng.below(ngl)].id },
+            frame: if o.odd && rng.chance(1, 6) { rng.uuid() } else { m.cons.frames[rng.below(nfr)].id },
             f_f: *rng.pick(&[0.0, 1.0, 0.1, 0.2, 0.25, 0.35, 0.5]),
             delta_u: *rng.pick(&[0.0, 0.0, 5.0, 10.0, 25.0, 50.0]),
             g_glshwi: if rng.chance(1, 2) {
-                Some(rng.f(0.05, 0.7, 2))
+                Some(match rng.below(6) {
+                    0 => 0.0,
+                    1 => 0.004,
+                    2 => 1.0,
+                    _ => rng.f(0.05, 0.7, 2),
+                })
             } else {
                 None
             },
@@ -391,13 +397,16 @@ pub fn gen_model(rng: &mut Rng, o: &GenOpts) -> Model {
         if rng.chance(5, 6) {
             let bounds = *rng.pick(&[EXTERIOR, EXTERIOR, EXTERIOR, INTERIOR, ADIABATIC, GROUND]);
             let tilt = if o.odd { *rng.pick(&TILTS_TOP) } else { 0.0 };
+            // the same rectangle listed from its second corner: the polygon's own frame (origin at its first vertex, x along its first
+            // edge) then differs from the wall's local frame
+            let roof_poly = if o.positions && rng.chance(1, 3) { vec![point![a, 0.0], point![a, b], point![0.0, b], point![0.0, 0.0]] } else { rect(a, b) };
             let wi = add_wall(
                 &mut m,
                 rng,
                 "cubierta",
                 tilt,
                 0.0,
-                rect(a, b),
+                roof_poly,
                 Some(point![bx.x0, bx.y0, z + h]),
                 bounds,
             );
@@ -601,6 +610,13 @@ pub fn gen_model(rng: &mut Rng, o: &GenOpts) -> Model {
     if o.broken {
         break_links(rng, &mut m);
     }
+    // the order of the lists carries no meaning: in one model out of three the windows of different walls are interleaved
+    if rng.chance(1, 3) && m.windows.len() > 2 {
+        for i in (1..m.windows.len()).rev() {
+            let j = rng.below(i + 1);
+            m.windows.swap(i, j);
+        }
+    }
     m
 }
 
@@ -740,7 +756,21 @@ pub fn add_unused(rng: &mut Rng, m: &mut Model) {
 
 /// redirect random links to absent or nil ids; negate random bridge lengths (0 becomes -0.0)
 pub fn break_links(rng: &mut Rng, m: &mut Model) {
-    let bad = |rng: &mut Rng| if rng.chance(1, 2) { Uuid::nil() } else { rng.uuid() };
+    // ids that exist in the model, in whatever collection: a link redirected to one of them is (almost always) a link to the wrong kind
+    let mut foreign: Vec<Uuid> = vec![];
+    foreign.extend(m.spaces.iter().map(|x| x.id));
+    foreign.extend(m.walls.iter().map(|x| x.id));
+    foreign.extend(m.windows.iter().map(|x| x.id));
+    foreign.extend(m.cons.wallcons.iter().map(|x| x.id));
+    foreign.extend(m.cons.wincons.iter().map(|x| x.id));
+    foreign.extend(m.cons.materials.iter().map(|x| x.id));
+    foreign.extend(m.cons.glasses.iter().map(|x| x.id));
+    foreign.extend(m.cons.frames.iter().map(|x| x.id));
+    let bad = move |rng: &mut Rng| match rng.below(3) {
+        0 => Uuid::nil(),
+        1 if !foreign.is_empty() => foreign[rng.below(foreign.len())],
+        _ => rng.uuid(),
+    };
     for w in m.walls.iter_mut() {
         if rng.chance(1, 8) {
             w.space = bad(rng);
